@@ -90,6 +90,10 @@ pub struct MemReadOutcome {
     pub result: Result<Vec<u8>, String>,
     pub panicked: bool,
     pub setup_failed: bool,
+    /// the target had already been killed when this read was issued
+    pub target_dead: bool,
+    /// ... or was killed while this read was in progress
+    pub died_during: bool,
 }
 
 #[derive(Clone, Debug, Default)]
